@@ -51,7 +51,7 @@ fn kf(pos: f32, a: Option<f32>, k: Option<i32>, d: Option<f64>, e: Option<u8>) -
     Kf { pos, a, k, d, easing: e }
 }
 
-/// 15 shapes; `variant` 0 uses Linear/custom polynomial easings, 1 uses built-in Bezier easings
+/// 17 shapes; `variant` 0 uses Linear/custom polynomial easings, 1 uses built-in Bezier easings
 /// (Ease / InOutCubic / OutBack) in the same places.
 pub fn pool(variant: u8) -> Vec<(&'static str, Vec<TlSpec>)> {
     let e = |i: u8| -> u8 {
@@ -94,6 +94,23 @@ pub fn pool(variant: u8) -> Vec<(&'static str, Vec<TlSpec>)> {
         ("empty-merged-list", vec![]),
         ("infinite-delay-equals-cycle", vec![one(vec![kf(0.0, Some(-20.0), Some(-200), None, None), kf(1.0, Some(60.0), Some(300), None, None)], e(0), t(0.5, 0.5, Rep::Infinite, false))]),
         ("times-2-delayed", vec![one(vec![kf(0.0, Some(5.0), None, None, None), kf(0.5, Some(45.0), None, None, Some(e(1))), kf(1.0, Some(-15.0), None, None, None)], e(0), t(0.5, 0.25, Rep::Times(2), false))]),
+        // components that share one cycle length (so the merged timeline reports a cycle duration) but differ in
+        // repeat count and delay: an endless one, and a delayed Times(1) reversing one that ends after 1.25 s
+        (
+            "merged-infinite+times-1-same-cycle",
+            vec![
+                one(vec![kf(0.0, Some(8.0), None, None, None), kf(1.0, Some(72.0), None, None, None)], e(0), t(0.5, 0.0, Rep::Infinite, false)),
+                one(vec![kf(0.0, None, Some(20), None, None), kf(1.0, None, Some(50), None, None)], e(0), t(0.5, 0.25, Rep::Times(1), true)),
+            ],
+        ),
+        // the component with the larger repeat count is over long before the non-repeating one
+        (
+            "merged-short-times-2+long-once",
+            vec![
+                one(vec![kf(0.0, Some(-4.0), None, None, None), kf(1.0, Some(12.0), None, None, None)], e(0), t(0.25, 0.0, Rep::Times(2), false)),
+                one(vec![kf(0.0, None, Some(0), None, None), kf(1.0, None, Some(400), None, None)], e(1), t(2.0, 0.0, Rep::None, false)),
+            ],
+        ),
         // negative delay: the animation is already half-way through when the state is entered (entering it
         // legitimately moves the values at once, so this shape is left out of the C04 no-jump runs)
         ("negative-delay", vec![one(vec![kf(0.0, Some(40.0), Some(-40), None, None), kf(1.0, Some(120.0), Some(80), None, None)], e(0), t(1.0, -0.5, Rep::None, false))]),
@@ -902,7 +919,7 @@ pub fn run(run: Run, prop: Prop) -> ! {
         (Prop::C07, false) => (5, 12, 3),
         (Prop::C07, true) => (6, 14, 4),
     };
-    // configurations: all 144 (X shape, Y shape); easing variant alternates in quick, both in thorough;
+    // configurations: all (X shape, Y shape) pairs; easing variant alternates in quick, both in thorough;
     // initial state X (animated from non-default initial values) or U1 (every 5th config)
     let mut cfgs: Vec<(usize, usize, u8, S4, Option<usize>)> = vec![];
     // The last shape (negative delay) is never the initial state's timeline (the animator does not evaluate
@@ -1002,7 +1019,7 @@ pub fn run(run: Run, prop: Prop) -> ! {
     cov.insert("traces_validated_against_impl".into(), json!(acc.histories));
     cov.insert("evaluations".into(), json!(acc.checks));
     cov.insert("distinct_nontrivial".into(), json!(acc.nontrivial));
-    cov.insert("rule".into(), json!(format!("{} animator configurations (X and Y timelines from a pool of 14 shapes: finite, to-only, mid-keyframe-only, delayed, Times 1, reversing, infinite, infinite-reversing-delayed, merged disjoint finite+infinite, merged overlapping, partial, empty merged list, infinite with delay = cycle, delayed Times 2, negative delay (not in C04 runs); two un-animated states (in every 4th configuration - thorough: an extra copy of every configuration - U2 is a third animated state, so A -> B -> C -> A histories occur); Linear/polynomial or built-in Bezier easings; non-default initial values; initial state X or U1) x ALL histories of length 1..={} over the alphabet [{}] (a state is the history: the real animator is rebuilt and replayed; clauses are evaluated on the last operation of each history, so every operation of every history is checked once) + deviation-bounded pass: default advance(1/4), all histories of length <= {} with <= {} deviations + de-duplicating breadth-first pass keyed on the complete mutable state (counts under bfs_pass; a capped level is reported, everything below the cap depth is complete). {}", cfgs.len(), depth, ops.iter().map(|o| o.name()).collect::<Vec<_>>().join(", "), dev_len, dev_k, match prop {
+    cov.insert("rule".into(), json!(format!("{} animator configurations (X and Y timelines from a pool of 17 shapes: finite, to-only, mid-keyframe-only, delayed, Times 1, reversing, infinite, infinite-reversing-delayed, merged disjoint finite+infinite, merged overlapping, partial, empty merged list, infinite with delay = cycle, delayed Times 2, merged endless + delayed Times 1 reversing with one cycle length, merged short Times 2 + long non-repeating, negative delay (not in C04 runs); two un-animated states (in every 4th configuration - thorough: an extra copy of every configuration - U2 is a third animated state, so A -> B -> C -> A histories occur); Linear/polynomial or built-in Bezier easings; non-default initial values; initial state X or U1) x ALL histories of length 1..={} over the alphabet [{}] (a state is the history: the real animator is rebuilt and replayed; clauses are evaluated on the last operation of each history, so every operation of every history is checked once) + deviation-bounded pass: default advance(1/4), all histories of length <= {} with <= {} deviations + de-duplicating breadth-first pass keyed on the complete mutable state (counts under bfs_pass; a capped level is reported, everything below the cap depth is complete). {}", cfgs.len(), depth, ops.iter().map(|o| o.name()).collect::<Vec<_>>().join(", "), dev_len, dev_k, match prop {
         Prop::C04 => "Oracle: current_values bit-identical before/after every set_state; same-state set_state leaves time, pause record and is_ended unchanged. non-trivial = set_state calls that change the state",
         Prop::C05 => "Oracle: RefAnimator stepped alongside (current_state, time in state via hook, live pause record via hook, values = state's merged timeline started from the values observed at entry, evaluated at the time in state; un-animated fields bit-identical). non-trivial = operations after which the current state animates at least one property",
         Prop::C06 => "Companion: every sequence of 2..5 non-representable steps (0.1,0.2,0.3,1/3,0.7) vs one advance of their f32 sum, values within float rounding (1e-3 of the value scale; sequences ending within 2e-5 s of a reference discontinuity skipped). Oracle: the history and its normal form (consecutive advances merged, zero advances and same-state changes dropped) end with bit-identical values, state and is_ended; advance(0) is a no-op. non-trivial = histories that differ from their normal form",
